@@ -143,7 +143,8 @@ def tasks_for(tier: str, seed: int = 0) -> List[Tuple]:
     else:
         comp = cc.compound_pair_specs(4, core_only=True, limit=12000, seed=1) + \
             cc.compound_pair_specs(2, core_only=False, limit=6000, seed=2)
-    citems = [(s, d, "float") for (s, d) in comp]
+    powers = cc.power_pair_specs((2, 3, -1, -2) if tier == "thorough" else (2, -1), 0 if tier == "thorough" else 14)
+    citems = [(s, d, "float") for (s, d) in comp + powers]
     tasks: List[Tuple] = [("named", ch) for ch in par.chunks(families.shuffled(items, seed), 32)]
     tasks += [("compound", ch) for ch in par.chunks(families.shuffled(citems, seed), 32)]
     return tasks
